@@ -1759,6 +1759,13 @@ impl Gen {
     }
 
     fn cond(&mut self, ctx: &mut Ctx) -> String {
+        let bools: Vec<String> = self.consts.iter().filter(|c| c.kind == CKind::Bool).map(|c| c.name.clone()).collect();
+        if !bools.is_empty() && self.rng.pct(10) {
+            // the whole condition is a module-scope constant (a "debug flag"): both branches still count as static uses
+            self.feat("cond_is_bool_const");
+            let b = self.rng.pick(&bools).clone();
+            return if self.rng.pct(50) { b } else { format!("!{}", b) };
+        }
         let op = *self.rng.pick(&["<", ">", "<=", ">=", "!="]);
         let lit = self.flit();
         let r = self.returning(ctx, 0);
@@ -1777,6 +1784,10 @@ impl Gen {
         if !self.funcs[f].returns {
             self.feat("call_void_stmt");
             let c = self.call_expr(ctx, f, true);
+            if self.rng.pct(20) {
+                self.feat("call_void_repeated");
+                return vec![format!("{};", c), format!("{};", c)];
+            }
             return vec![format!("{};", c)];
         }
         let c = self.call_expr(ctx, f, true);
@@ -3023,6 +3034,15 @@ impl Gen {
             let mut f = free;
             self.rng.shuffle(&mut f);
             f.truncate(n);
+            if !f.is_empty() && self.rng.pct(7) {
+                // a location beyond the first 32 (bit masks, small tables and `1 << location` tricks end there)
+                let big = *self.rng.pick(&[31u32, 32, 33, 40, 63, 64, 65, 255]);
+                if !f.contains(&big) && !avoid.contains(&big) {
+                    self.feat("location_beyond_32");
+                    let k = self.rng.below(f.len());
+                    f[k] = big;
+                }
+            }
             if self.rng.pct(50) {
                 f.sort();
             }
@@ -4543,6 +4563,65 @@ pub fn diamond(depth: usize) -> String {
         depth - 1,
         depth - 1
     ));
+    s
+}
+
+/// the diamond ladder with helpers that touch NO module-scope variable at all (a memo that confuses "reaches nothing"
+/// with "not computed yet" re-resolves them from every caller); `void_calls`: result-less helpers, called as statements.
+pub fn diamond_pure(depth: usize, void_calls: bool) -> String {
+    let depth = depth.max(1);
+    let mut s = String::new();
+    s.push_str("@group(0) @binding(0) var<storage, read_write> dst: array<f32>;\n\n");
+    if void_calls {
+        s.push_str("fn a_0() {\n}\n\nfn b_0() {\n}\n\n");
+        for i in 1..depth {
+            s.push_str(&format!("fn a_{}() {{\n    a_{}();\n    b_{}();\n}}\n\n", i, i - 1, i - 1));
+            s.push_str(&format!("fn b_{}() {{\n    b_{}();\n    a_{}();\n}}\n\n", i, i - 1, i - 1));
+        }
+        s.push_str(&format!("@compute @workgroup_size(1)\nfn main() {{\n    a_{}();\n    b_{}();\n    dst[0] = 1.0;\n}}\n", depth - 1, depth - 1));
+    } else {
+        s.push_str("fn a_0() -> f32 {\n    return 1.0;\n}\n\nfn b_0() -> f32 {\n    return 2.0;\n}\n\n");
+        for i in 1..depth {
+            s.push_str(&format!("fn a_{}() -> f32 {{\n    return a_{}() + b_{}();\n}}\n\n", i, i - 1, i - 1));
+            s.push_str(&format!("fn b_{}() -> f32 {{\n    let x = a_{}();\n    let y = b_{}();\n    return x * y;\n}}\n\n", i, i - 1, i - 1));
+        }
+        s.push_str(&format!("@compute @workgroup_size(1)\nfn main() {{\n    dst[0] = a_{}();\n    dst[1] = b_{}();\n}}\n", depth - 1, depth - 1));
+    }
+    s
+}
+
+/// `struct S{i+1} { x: array<S{i}, 1>, y: array<S{i}, 1> }`: the shared nested type is reached through ARRAY members
+/// (a closure that only remembers struct handles re-expands it). Byte size doubles per level (keep `depth <= 26`).
+pub fn nested_struct_arrays(depth: usize) -> String {
+    let mut s = String::new();
+    s.push_str("struct S0 {\n    a: f32,\n}\n\n");
+    for i in 1..=depth {
+        s.push_str(&format!("struct S{} {{\n    x: array<S{}, 1>,\n    y: array<S{}, 1>,\n}}\n\n", i, i - 1, i - 1));
+    }
+    s.push_str(&format!("@group(0) @binding(0) var<storage, read_write> data: S{};\n\n", depth));
+    let mut path = String::from("data");
+    for i in 0..depth {
+        path.push_str(if i % 2 == 0 { ".x[0]" } else { ".y[0]" });
+    }
+    path.push_str(".a");
+    s.push_str(&format!("@compute @workgroup_size(1)\nfn main() {{\n    {} = {} + 1.0;\n}}\n", path, path));
+    s
+}
+
+/// a single chain of nesting, `struct S{i+1} {{ inner: S{i}, pad: f32 }}`, alternating with fixed arrays: linear size, any depth
+/// (a closure that gives up beyond some composite nesting depth drops the innermost structs).
+pub fn nested_deep(depth: usize) -> String {
+    let mut s = String::new();
+    s.push_str("struct S0 {\n    a: vec4<f32>,\n}\n\n");
+    for i in 1..=depth {
+        if i % 3 == 0 {
+            s.push_str(&format!("struct S{} {{\n    inner: array<S{}, 1>,\n    pad: vec4<f32>,\n}}\n\n", i, i - 1));
+        } else {
+            s.push_str(&format!("struct S{} {{\n    inner: S{},\n    pad: vec4<f32>,\n}}\n\n", i, i - 1));
+        }
+    }
+    s.push_str(&format!("@group(0) @binding(0) var<storage, read_write> data: S{};\n\n", depth));
+    s.push_str("@compute @workgroup_size(1)\nfn main() {\n    data.pad = vec4<f32>(1.0);\n}\n");
     s
 }
 
